@@ -18,6 +18,7 @@ EXPLANATION = (
     "C11_TABLE; no lifecycle code asks the standard library to drop errors (rmtree(ignore_errors=True), "
     "contextlib.suppress(OSError)); (b) the re-key rollback precedes every raise (C04-a) and init() validates after "
     "writing (C02-c); (c) Job.move maps ENOENT / destination-exists / EXDEV and re-raises everything else (C04-b)."
+    ' (e) remove() attempts the deletion unconditionally (no existence probe in front of rmtree: a probe answers False for every failing stat).'
 )
 UNDECIDED = ("What the workspace looks like after a process death at each file-system step, torn writes and double faults need "
              "execution under fault injection or a model and are not decided by this analysis.")
